@@ -11,18 +11,27 @@ Definition rkids (r : row) : list key := snd r.
 Fixpoint rows (t : tree) : list row :=
   let 'Node k a l := t in (k, a, map tkey l) :: flat_map rows l.
 
-(* the flat node stored for row r: same attributes; its child links are exactly r's children, each a hard link
-   (same address) to the child's own flat node *)
+(* attributes equal up to the order of the property-group blocks (the file lists blocks by name, the loader returns them
+   sorted by identifier, memory keeps insertion order) *)
+Definition attrs_equiv (a b : attrs) : Prop :=
+  aname a = aname b /\ adel a = adel b /\ aarr a = aarr b
+  /\ (forall g, In g (apgs a) <-> In g (apgs b)) /\ length (apgs a) = length (apgs b).
+
+(* the flat node stored for row r: same attributes (property-group blocks as a set: after a re-open memory holds them
+   sorted by identifier while the file keeps its own order, so exact equality is NOT an invariant of the model); its
+   child links are exactly r's children, each a hard link (same address) to the child's own flat node *)
 Definition node_matches (m : flatmap) (r : row) : Prop :=
   exists n, fget (rkey r) m = Some n
-    /\ fattrs n = rattrs r
+    /\ attrs_equiv (fattrs n) (rattrs r)
     /\ NoDup (map fst (flinks n))
     /\ (forall c, In c (map fst (flinks n)) <-> In c (rkids r))
     /\ (forall c ad, In (c, ad) (flinks n) -> exists cn, fget c m = Some cn /\ faddr cn = ad).
 
-(* property groups of a row: members are data children of that very entity; group identifiers are distinct *)
+(* property groups of a row: members are data children of that very entity, none listed twice (the scrub of a removed
+   data child drops ONE occurrence); group identifiers are distinct *)
 Definition pgs_ok (r : row) : Prop :=
   NoDup (map pg_id (apgs (rattrs r)))
+  /\ (forall g, In g (apgs (rattrs r)) -> NoDup (pg_members g))
   /\ forall g m, In g (apgs (rattrs r)) -> In m (pg_members g) -> In m (rkids r) /\ fst m = KD.
 
 (* The file represents tree t, up to the flat nodes of the identifiers in [pend] (dead entities not yet swept),
@@ -46,10 +55,6 @@ Record Rep (t : tree) (f : file) (pend : list key) : Prop := {
 Definition Valid (f : file) : Prop := exists t, Rep t f [].
 
 (* trees equal up to the order of children (HDF5 lists links by name, memory keeps insertion order) *)
-Definition attrs_equiv (a b : attrs) : Prop :=
-  aname a = aname b /\ adel a = adel b /\ aarr a = aarr b
-  /\ (forall g, In g (apgs a) <-> In g (apgs b)) /\ length (apgs a) = length (apgs b).
-
 Inductive tree_equiv : tree -> tree -> Prop :=
 | te_node k a1 a2 l1 l2 :
     attrs_equiv a1 a2 -> kids_equiv l1 l2 -> tree_equiv (Node k a1 l1) (Node k a2 l2)
